@@ -1461,6 +1461,7 @@ fn op_entry(cx: &mut Ctx, s: usize, k: u64, steps: Vec<Step>, fuse: Option<u64>)
     let removing = steps.iter().any(|s| matches!(s, Step::AndReplace(..) | Step::OccReplaceWith(..) | Step::OccRemove | Step::OccRemoveEntry));
     let spec = OpSpec { toks, kind: "entry", slots: vec![s], pslot: if fuse.is_some() { Some(s) } else { None }, fuse, key_adding: adding && !removing, readonly: !adding, key: Some(k) };
     let key = K::new(k, kid);
+    let steps_copy = steps.clone();
     let out = run_op(cx, spec, move |cx| {
         // the map is borrowed by the entry: take it out of the context while the chain runs
         let mut map = cx.maps[s].take().unwrap();
@@ -1605,16 +1606,44 @@ fn op_entry(cx: &mut Ctx, s: usize, k: u64, steps: Vec<Step>, fuse: Option<u64>)
             Err(p) => std::panic::resume_unwind(p),
         }
     });
-    resync_ref_checked(cx, s, k, &out);
+    resync_ref_checked(cx, s, k, &out, &steps_copy);
     out
 }
 
+/// What the value under the chain's key must be after the chain (None: absent), given what it was:
+/// the reference semantics of the entry API (the `ref_step` of coq/EntryProofs.v, values only).
+fn chain_value(steps: &[Step], before: Option<u64>) -> Option<u64> {
+    let mut cur = before;
+    for st in steps {
+        cur = match (st, cur) {
+            (Step::AndModify(d), Some(v)) => Some(v + d),
+            (Step::AndReplace(keep, d), Some(v)) | (Step::OccReplaceWith(keep, d), Some(v)) => if *keep { Some(v + d) } else { None },
+            (Step::OrInsert(_, w), Some(x)) | (Step::OrInsertWith(_, w), Some(x)) | (Step::OrInsertWithKey(_, w), Some(x)) => Some(w.unwrap_or(x)),
+            (Step::OrInsert(v, w), None) | (Step::OrInsertWith(v, w), None) | (Step::OrInsertWithKey(v, w), None) | (Step::VacInsert(v, w), None) => Some(w.unwrap_or(*v)),
+            (Step::InsertE(v), _) | (Step::OccInsert(v), Some(_)) | (Step::OccReplaceEntry(v), Some(_)) | (Step::RawInsert(_, v), _) => Some(*v),
+            (Step::OccGetMut(w), Some(_)) | (Step::OccIntoMut(w), Some(_)) => Some(*w),
+            (Step::OccRemove, _) | (Step::OccRemoveEntry, _) => None,
+            (Step::RawOrInsert(_, _, w), Some(x)) | (Step::RawOrInsertWith(_, _, w), Some(x)) => Some(w.unwrap_or(x)),
+            (Step::RawOrInsert(_, v, w), None) | (Step::RawOrInsertWith(_, v, w), None) | (Step::RawVacInsert(_, _, v, w), None) => Some(w.unwrap_or(*v)),
+            (_, c) => c,
+        };
+    }
+    cur
+}
+
 /// Entry chains are checked against the model; the reference map is re-read from the map and,
-/// for the key touched, every other element must be unchanged.
-fn resync_ref_checked(cx: &mut Ctx, s: usize, k: u64, out: &Out) {
+/// for the key touched, every other element must be unchanged; the chain's own key must hold what
+/// the handle's operations wrote (writes through a handle are seen by later lookups).
+fn resync_ref_checked(cx: &mut Ctx, s: usize, k: u64, out: &Out, steps: &[Step]) {
     let old = cx.refs[s].take().unwrap_or_default();
     resync_ref(cx, s);
     if cx.monitors && !matches!(out, Out::P(_)) {
+        let want = chain_value(steps, old.get(&k).map(|e| e.1));
+        let probe = K::new(k, 0);
+        let got = cx.maps[s].as_ref().unwrap().get(&probe).map(|v| v.get());
+        if got != want {
+            vio("C12", format!("after the entry chain on key {} a lookup finds {:?}, the handle's operations leave {:?} (a write through the handle is not seen, or acted on another element)", k, got, want));
+        }
         let new = cx.refs[s].as_ref().unwrap();
         let mut bad = None;
         for (kk, e) in &old {
@@ -1648,6 +1677,7 @@ fn op_raw_entry(cx: &mut Ctx, s: usize, variant: u64, k: u64, steps: Vec<Step>, 
     let spec = OpSpec { toks, kind: "rawentry", slots: vec![s], pslot: if fuse.is_some() { Some(s) } else { None }, fuse, key_adding: adding && !removing, readonly: !adding, key: Some(k) };
     let probe = K::new(k, 0);
     let probe = &probe;
+    let steps_copy = steps.clone();
     let out = run_op(cx, spec, move |cx| {
         let mut map = cx.maps[s].take().unwrap();
         let hb = map.hasher().clone();
@@ -1793,7 +1823,7 @@ fn op_raw_entry(cx: &mut Ctx, s: usize, variant: u64, k: u64, steps: Vec<Step>, 
             Err(p) => std::panic::resume_unwind(p),
         }
     });
-    resync_ref_checked(cx, s, k, &out);
+    resync_ref_checked(cx, s, k, &out, &steps_copy);
     out
 }
 
